@@ -374,7 +374,7 @@ pub fn case(s2n_client: bool) -> BoxedStrategy<Case> {
     )
         .prop_map(move |(seed, mut s2n, s2n_retry, rsa_cert, q, streams, net, cids)| {
             s2n.limits.max_active_cids = cids;
-            normalise(Case { seed, s2n_client, s2n, s2n_retry, rsa_cert, q, conn: ConnScript { streams, close_code: Some(0) }, net })
+            normalise(Case { seed, s2n_client, s2n, s2n_retry, rsa_cert, q, conn: ConnScript { streams, close_code: Some(0), datagrams: vec![] }, net })
         })
         .boxed()
 }
